@@ -96,12 +96,41 @@ def showTrace (prev : String) : List (Res × Node) → List String
     let s := showTree t
     (encRes r ++ "|" ++ (if s = prev then "=" else s)) :: showTrace s rest
 
+/-- an operation of a harness history: one model operation, or `rm [-r] p1 p2 …` (several paths
+    in ONE command: the paths are removed in order, the first error ends the command with the
+    error result and keeps what was removed before it) -/
+inductive DOp
+  | one (o : Op)
+  | rmMany (recursive : Bool) (ps : List P)
+
+def decDOp (t : String) : Option DOp :=
+  match t.splitOn ":" with
+  | "rmm" :: r :: ps => do
+    let ps ← ps.mapM decPath
+    if ps.isEmpty then none else pure (.rmMany (r == "1") ps)
+  | _ => (decOp t).map .one
+
+def rmManyGo (recursive : Bool) (t : Node) : List P → Node × Res
+  | [] => (t, .ok .unit)
+  | p :: rest =>
+    match rm t recursive p with
+    | (t', .ok _) => rmManyGo recursive t' rest
+    | (t', r) => (t', r)
+
+def stepD (t : Node) : DOp → Node × Res
+  | .one o => step t o
+  | .rmMany r ps => rmManyGo r t ps
+
+def runD (t : Node) : List DOp → List (Res × Node)
+  | [] => []
+  | op :: rest => ((stepD t op).2, (stepD t op).1) :: runD (stepD t op).1 rest
+
 def handle (toks : List String) : Option String :=
   match toks with
   | ["fs", ops] =>
-    match (ops.splitOn ";").mapM decOp with
+    match (ops.splitOn ";").mapM decDOp with
     | none => some "reject"
-    | some l => some (" ".intercalate (showTrace "-" (run FsTree.empty l)))
+    | some l => some (" ".intercalate (showTrace "-" (runD FsTree.empty l)))
   | ["fspath", "base", s] => (decStr s).map fun x => encOpt (basename x)
   | ["fspath", "dir", s] => (decStr s).map fun x => encOpt (dirname x)
   | ["fspath", "join", l] => (decList l).map fun x => encStr (joinPath x)
